@@ -54,6 +54,7 @@ FIXED = [
     ("C05", "feceebd", "the instant of an unscheduled optional task (-task number) collided with the instant of a worker left unselected by a selection (-2, -3, ...): under a sorting-based constraint on that worker (ResourceTasksDistance / ResourceNonDelay / idle indicator) valid schedules were refused (found by the thorough tier, seed 1)"),
     ("C16", "2778609", "to_excel_file(colors=True) raised ValueError 'Invalid color value: #' for a scheduled task without any resource (and for short crc32 values): the color was cut out of the decimal digits of the checksum"),
     ("C05", "c24ab38", "a SelectWorkers naming the same worker twice (two teams sharing a member): every selection that leaves that worker out was refused (its busy interval was parked at two different past instants at once); found by the thorough tier on the selection_dup cells"),
+    ("C02", "e31ff80", "a task requiring a worker directly AND through a SelectWorkers listing it (declared in that order) was accepted and the returned schedule left the directly required worker free for another task at the same time (one busy interval per (worker, task): the selection's replaced the direct one); the selection is now refused like in the other order (reported by a seeding sub-agent, reproduced by hand)"),
     ("C18", "939afbe", "ResourceNonDelay / TasksContiguous / IndicatorResourceIdle over a single task raised 'assertion And already added'"),
 ]
 
